@@ -8,6 +8,21 @@ INTEGRATION = ('gcacgmm', 'vmfcacgmm')
 COMPLEX_OBS = ('cacgmm', 'cwmm', 'cbmm', 'gcacgmm', 'vmfcacgmm')
 
 
+# C02 / C08 hand the library private writable copies of every array (whether
+# inputs are left untouched / accepted read-only is C20's business, and an
+# input-mutating library must not corrupt the oracles' own data); C20 hands
+# over the read-only originals.
+COPY_INPUTS = False
+
+
+def _lib(a):
+    if a is None or not COPY_INPUTS or not isinstance(a, np.ndarray):
+        return a
+    b = np.array(a, copy=True, order='K')
+    b.setflags(write=True)
+    return b
+
+
 def trainer_class(kind):
     from pb_bss import distribution as d
     return {
@@ -45,18 +60,18 @@ def call_fit(kind, trainer, obs, emb, initialization, iterations, opts,
              saliency=None, num_classes=None, method='fit', extra=None):
     kw = fit_kwargs(kind, opts)
     if extra:
-        kw.update(extra)
+        kw.update({k: _lib(v) for k, v in extra.items()})
     if saliency is not None:
-        kw['saliency'] = saliency
+        kw['saliency'] = _lib(saliency)
     if initialization is not None:
-        kw['initialization'] = initialization
+        kw['initialization'] = _lib(initialization)
     else:
         kw['num_classes'] = num_classes
     kw['iterations'] = iterations
     fn = getattr(trainer, method)
     if kind in INTEGRATION:
-        return fn(obs, emb, **kw)
-    return fn(obs, **kw)
+        return fn(_lib(obs), _lib(emb), **kw)
+    return fn(_lib(obs), **kw)
 
 
 def component(kind, model):
@@ -94,6 +109,7 @@ def component_log_pdf(kind, model, obs, emb=None):
     """log p_k(y_n) as reported by the *component distributions' public
     log_pdf*, shape (..., K, N).  For the integration models the sum of the
     exponent-weighted stream log densities."""
+    obs, emb = _lib(obs), _lib(emb)
     if kind == 'cacgmm':
         return model.cacg.log_pdf(obs[..., None, :, :])
     if kind == 'cwmm':
